@@ -704,3 +704,135 @@ Proof.
   - left. apply reachable_try, R.
   - left. apply reachable_try, R.
 Qed.
+
+(* ------------------------------------------------------------------ *)
+(** * At most one disconnect notification per connection *)
+
+Definition held_n (x : conn) : nat :=
+  (if pc_eqb (c_ka x) PHeld then 1 else 0) + (if pc_eqb (c_rd x) PHeld then 1 else 0).
+
+Definition cnt (c : nat) (s : st) : nat := count_occ Nat.eq_dec (map snd (cblog s)) c.
+
+Record Once (s : st) : Prop := {
+  once_conn : forall c x, get s c = Some x ->
+     (held_n x + cnt c s <= 1)%nat /\ ((1 <= held_n x + cnt c s)%nat -> c_handled x = true);
+  once_dom : forall c, In c (map snd (cblog s)) -> (c < length (conns s))%nat
+}.
+
+Lemma once_init : Once init.
+Proof. split; cbn; intros; [destruct c; discriminate|contradiction]. Qed.
+
+Lemma held_n_close : forall x, held_n (close_conn x) = held_n x.
+Proof. intros x. unfold held_n, close_conn. cbn. destruct (c_ka x); reflexivity. Qed.
+
+(** rewriting one connection record without touching Held positions or the log *)
+Lemma once_set : forall s c x x' r ro rl b,
+  Once s -> get s c = Some x -> held_n x' = held_n x -> (c_handled x = true -> c_handled x' = true) ->
+  Once {| conns := set_nth (conns s) c x'; reg := r; routes := ro; relays := rl; cblog := cblog s; blocked := b |}.
+Proof.
+  intros s c x x' r ro rl b O Hg Hh Hd. split; cbn [conns cblog get].
+  - intros d y Hy. unfold get in Hy. cbn in Hy. unfold cnt. cbn [cblog].
+    destruct (nth_error_set_nth _ _ _ _ _ Hy) as [[-> [-> _]]|[Hne Hy']].
+    + destruct (once_conn _ O _ _ Hg) as [A B]. unfold cnt in *. rewrite Hh. split; [exact A|]. intros H. apply Hd, B, H.
+    + apply (once_conn _ O _ _ Hy').
+  - intros d Hd'. rewrite set_nth_length. apply (once_dom _ O), Hd'.
+Qed.
+
+Lemma once_step : forall s e s', Once s -> step fixed s e = Some s' -> Once s'.
+Proof.
+  intros s e s' O H. destruct e; cbn [step fixed v_serial v_once andb] in H.
+  - (* EReg *)
+    destruct (lifecycle_held s); [discriminate|].
+    assert (Hnew : cnt (length (conns s)) s = 0%nat).
+    { unfold cnt. apply count_occ_not_In. intros Hin. apply (once_dom _ O) in Hin. lia. }
+    destruct (lookup p (reg s)); injection H as <-; (split; cbn [conns cblog get];
+      [ intros d y Hy; unfold get in Hy; cbn in Hy; unfold cnt; cbn [cblog];
+        destruct (nth_error_app_new _ _ _ _ Hy) as [[-> ->]|[_ Hy']];
+        [ fold (cnt (length (conns s)) s); rewrite Hnew; cbn; split; [lia|intros; lia] | apply (once_conn _ O _ _ Hy') ]
+      | intros d Hd; rewrite app_length; cbn; apply (once_dom _ O) in Hd; lia ]).
+  - (* EKaFail *)
+    destruct (get s c) as [x|] eqn:Hg; [|discriminate].
+    destruct (pc_eqb (c_ka x) PIdle && negb (c_closed x)) eqn:E; [|discriminate]. injection H as <-.
+    apply andb_prop in E. destruct E as [E _]. apply pc_eqb_eq in E.
+    unfold upd. eapply once_set; eauto. unfold held_n. cbn. rewrite E. reflexivity.
+  - (* ERdErr *)
+    destruct (get s c) as [x|] eqn:Hg; [|discriminate].
+    destruct (pc_eqb (c_rd x) PIdle) eqn:E; [|discriminate]. injection H as <-. apply pc_eqb_eq in E.
+    unfold upd. eapply once_set; eauto. unfold held_n. cbn. rewrite E. destruct (c_ka x); reflexivity.
+  - (* ETdLock *)
+    destruct (get s c) as [x|] eqn:Hg; [|discriminate].
+    destruct (pc_eqb (th_pc x t) PClosed) eqn:E; cbn [negb] in H; [|discriminate]. apply pc_eqb_eq in E.
+    destruct (lifecycle_held s); [discriminate|]. injection H as <-.
+    destruct (once_conn _ O _ _ Hg) as [A B].
+    set (other := match lookup (c_peer x) (reg s) with Some c' => negb (Nat.eqb c' c) | None => false end).
+    split; cbn [conns cblog get].
+    + intros d y Hy. unfold get in Hy. cbn in Hy. unfold cnt. cbn [cblog].
+      destruct (nth_error_set_nth _ _ _ _ _ Hy) as [[-> [-> _]]|[Hne Hy']]; [|apply (once_conn _ O _ _ Hy')].
+      fold (cnt c s). fold other.
+      destruct (c_handled x || other) eqn:St.
+      * (* stale: no thread becomes Held *)
+        assert (Hh : held_n (set_pc {| c_peer := c_peer x; c_closed := c_closed x; c_accepted := c_accepted x; c_rd := c_rd x;
+                                       c_ka := c_ka x; c_handled := true |} t PDone) = held_n x).
+        { unfold held_n. destruct t; cbn in *; rewrite E; reflexivity. }
+        rewrite Hh. split; [exact A|]. intros _. destruct t; reflexivity.
+      * apply orb_false_elim in St. destruct St as [Hnh _].
+        assert (Z0 : (held_n x + cnt c s = 0)%nat).
+        { destruct (held_n x + cnt c s)%nat eqn:Z; [reflexivity|]. rewrite B in Hnh by lia. discriminate. }
+        assert (Hh : held_n (set_pc {| c_peer := c_peer x; c_closed := c_closed x; c_accepted := c_accepted x; c_rd := c_rd x;
+                                       c_ka := c_ka x; c_handled := true |} t PHeld) = 1%nat).
+        { unfold held_n in *. destruct t; cbn in *; rewrite E in Z0; cbn in Z0.
+          - destruct (pc_eqb (c_rd x) PHeld); cbn in *; lia.
+          - destruct (pc_eqb (c_ka x) PHeld); cbn in *; lia. }
+        rewrite Hh. split; [lia|]. intros _. destruct t; reflexivity.
+    + intros d Hd. rewrite set_nth_length. apply (once_dom _ O), Hd.
+  - (* ETdNotify *)
+    destruct (get s c) as [x|] eqn:Hg; [|discriminate].
+    destruct (pc_eqb (th_pc x t) PHeld) eqn:E; cbn [negb] in H; [|discriminate]. apply pc_eqb_eq in E.
+    injection H as <-. destruct (once_conn _ O _ _ Hg) as [A B].
+    split; cbn [conns cblog get].
+    + intros d y Hy. unfold get in Hy. cbn in Hy. unfold cnt. cbn [cblog map snd].
+      destruct (nth_error_set_nth _ _ _ _ _ Hy) as [[-> [-> _]]|[Hne Hy']].
+      * rewrite count_occ_cons_eq by reflexivity. fold (cnt c s).
+        assert (Hh : S (held_n (set_pc x t PDone)) = held_n x).
+        { unfold held_n. destruct t; cbn in *; rewrite E; cbn; [reflexivity|lia]. }
+        split; [lia|]. intros _. destruct t; cbn; apply B; lia.
+      * rewrite count_occ_cons_neq by congruence. apply (once_conn _ O _ _ Hy').
+    + intros d Hd. cbn in Hd. destruct Hd as [<-|Hd]; rewrite set_nth_length.
+      * apply nth_error_Some. unfold get in Hg. rewrite Hg. discriminate.
+      * apply (once_dom _ O), Hd.
+  - (* EFrame *)
+    destruct (get s c) as [x|] eqn:Hg; [|discriminate].
+    destruct (pc_eqb (c_rd x) PIdle) eqn:E; cbn [negb] in H; [|discriminate]. apply pc_eqb_eq in E.
+    destruct (c_closed x); injection H as <-.
+    + unfold upd. eapply once_set; eauto. unfold held_n. cbn. rewrite E. cbn. lia.
+    + destruct O as [O1 O2]. split; auto.
+  - (* EDisconnect *)
+    destruct (lookup p (reg s)) as [c|]; [|discriminate].
+    destruct (get s c) as [x|] eqn:Hg; [|discriminate]. injection H as <-.
+    eapply once_set; eauto. apply held_n_close.
+  - (* EDisconnectAll *)
+    injection H as <-. split; cbn [conns cblog get].
+    + intros d y Hy. unfold get in Hy. cbn in Hy. unfold cnt. cbn [cblog].
+      destruct (close_all_spec _ _ _ _ Hy) as [x [Hx Hor]]. destruct (once_conn _ O _ _ Hx) as [A B].
+      destruct Hor as [->| ->]; [auto|]. rewrite held_n_close. auto.
+    + intros d Hd. rewrite close_all_length. apply (once_dom _ O), Hd.
+  - (* ERelay *)
+    injection H as <-. destruct O as [O1 O2]. split; auto.
+Qed.
+
+Lemma once_run : forall tr s s', Once s -> run fixed s tr = Some s' -> Once s'.
+Proof.
+  induction tr as [|e tr IH]; intros s s' O H; cbn in H.
+  - injection H as <-. exact O.
+  - destruct (step fixed s e) as [s1|] eqn:E; [|discriminate]. eapply IH; [|exact H]. eapply once_step; eauto.
+Qed.
+
+(** In every reachable state the disconnect callback has run at most once for every connection. *)
+Theorem notified_at_most_once : forall s c, reachable s -> (cnt c s <= 1)%nat.
+Proof.
+  intros s c [tr R]. pose proof (once_run _ _ _ once_init R) as O.
+  destruct (get s c) as [x|] eqn:Hg.
+  - destruct (once_conn _ O _ _ Hg). lia.
+  - assert (cnt c s = 0%nat); [|lia]. unfold cnt. apply count_occ_not_In. intros Hin.
+    apply (once_dom _ O) in Hin. unfold get in Hg. apply nth_error_None in Hg. lia.
+Qed.
